@@ -71,6 +71,10 @@ CLAIMED = {
              "real jsonschema validation -> real deserializer; device/register/channels/timeline/pulses/phase references/measurement compared "
              "for all values; templates compared after build() for symbolic variable values; same for the legacy PulserEncoder/Decoder.", ref="§6 C04",
              note="Trusted base: z3, symx, token JSON facade (schema numeric ranges checked for a witness value only), stubs in the evidence file."),
+ "C08": dict(text="Bounded symbolic model checking of build(): 6 templates (variables, items, + - * / // % ** abs sin, EOM and DMM arguments, "
+             "index targeting) are built three times (values v, v', v again) with symbolic variable values and compared with direct construction; "
+             "template unchanged; mappable registers resolve to the requested traps in declared order (concrete enumeration).", ref="§6 C08",
+             note="Trusted base: z3, symx, stubs in the evidence file; np.sin etc. of variables are uninterpreted functions; mappable-register cases are concrete."),
  "C02": dict(text="Bounded symbolic model checking of the real _Schedule operations: one operation from an arbitrary state "
              "satisfying the representation invariant (inductive step), all times/durations/fall times/limits as solver variables; "
              "exhaustive over paths and values inside the stated slot-count/clock bounds.", ref="§6 C02, §5 L1"),
